@@ -112,6 +112,29 @@ func init() {
 				{File: "internal/protocol/frame.go", Old: "\tif len(f.Payload) > MaxPayloadSize {\n\t\treturn nil, ErrFrameTooLarge\n\t}\n\n\tbuf := make([]byte, HeaderSize+len(f.Payload))", New: "\tif payloadTooLarge(uint64(len(f.Payload))) {\n\t\treturn nil, ErrFrameTooLarge\n\t}\n\n\tbuf := make([]byte, HeaderSize+len(f.Payload))"},
 				{File: "internal/protocol/frame.go", Old: "// DecodeHeader decodes a frame header from bytes.", New: "func payloadTooLarge(n uint64) bool {\n\treturn n > MaxFrameSize\n}\n\n// DecodeHeader decodes a frame header from bytes."},
 			}},
+			{Name: "leftover kept as a tail slice while the drain path stops resetting the offset", ExpectRule: "C07.R4", ExpectKey: "meshConn", Edits: []Edit{
+				{File: "internal/agent/agent.go", Old: "\t\t\tc.readBuf = nil\n\t\t\tc.readOffset = 0\n", New: "\t\t\tc.readBuf = nil\n"},
+				{File: "internal/agent/agent.go", Old: "\t\tc.readBuf = plaintext\n\t\tc.readOffset = n\n", New: "\t\tc.readBuf = plaintext[n:]\n"},
+			}},
+			{Name: "new leftover stored with an offset carried over from the previous one", ExpectRule: "C07.R4", ExpectKey: "meshConn", Edits: []Edit{
+				{File: "internal/agent/agent.go", Old: "\t\t\tc.readBuf = nil\n\t\t\tc.readOffset = 0\n", New: "\t\t\tc.readBuf = nil\n"},
+				{File: "internal/agent/agent.go", Old: "\t\tc.readBuf = plaintext\n\t\tc.readOffset = n\n", New: "\t\tc.readBuf = plaintext\n\t\tc.readOffset += n\n"},
+			}},
+			{Name: "rewrite: leftover kept as a tail slice, drain path still resets the offset", Edits: []Edit{
+				{File: "internal/agent/agent.go", Old: "\t\tc.readBuf = plaintext\n\t\tc.readOffset = n\n", New: "\t\tc.readBuf = plaintext[n:]\n"},
+			}},
+			{Name: "rewrite: drain path only clears the buffer, fresh path defines the offset", Edits: []Edit{
+				{File: "internal/agent/agent.go", Old: "\t\t\tc.readBuf = nil\n\t\t\tc.readOffset = 0\n", New: "\t\t\tc.readBuf = nil\n"},
+			}},
+			{Name: "destination write retried after partial progress without consuming it", ExpectRule: "C07.R5", ExpectKey: "HandleStreamData", Edits: []Edit{
+				{File: "internal/exit/handler.go", Old: "\t\tif _, err := ac.Conn.Write(plaintext); err != nil {\n\t\t\th.closeConnection(streamID, peerID, err)\n\t\t\treturn err\n\t\t}\n", New: "\t\terr = nil\n\t\tfor rest := plaintext; len(rest) > 0; {\n\t\t\tn, werr := ac.Conn.Write(rest)\n\t\t\tif werr != nil {\n\t\t\t\tif n > 0 {\n\t\t\t\t\tcontinue\n\t\t\t\t}\n\t\t\t\terr = werr\n\t\t\t\tbreak\n\t\t\t}\n\t\t\trest = rest[n:]\n\t\t}\n\t\tif err != nil {\n\t\t\th.closeConnection(streamID, peerID, err)\n\t\t\treturn err\n\t\t}\n"},
+			}},
+			{Name: "short destination write retried from the start of the buffer", ExpectRule: "C07.R5", ExpectKey: "HandleStreamData", Edits: []Edit{
+				{File: "internal/exit/handler.go", Old: "\t\tif _, err := ac.Conn.Write(plaintext); err != nil {\n\t\t\th.closeConnection(streamID, peerID, err)\n\t\t\treturn err\n\t\t}\n", New: "\t\terr = nil\n\t\tfor rest := plaintext; len(rest) > 0; {\n\t\t\tn, werr := ac.Conn.Write(rest)\n\t\t\tif werr != nil {\n\t\t\t\tif n < len(rest) {\n\t\t\t\t\tcontinue\n\t\t\t\t}\n\t\t\t\terr = werr\n\t\t\t\tbreak\n\t\t\t}\n\t\t\trest = rest[n:]\n\t\t}\n\t\tif err != nil {\n\t\t\th.closeConnection(streamID, peerID, err)\n\t\t\treturn err\n\t\t}\n"},
+			}},
+			{Name: "rewrite: destination written in a loop that consumes n and retries only when nothing was accepted", Edits: []Edit{
+				{File: "internal/exit/handler.go", Old: "\t\tif _, err := ac.Conn.Write(plaintext); err != nil {\n\t\t\th.closeConnection(streamID, peerID, err)\n\t\t\treturn err\n\t\t}\n", New: "\t\terr = nil\n\t\tfor rest := plaintext; len(rest) > 0; {\n\t\t\tn, werr := ac.Conn.Write(rest)\n\t\t\tif werr != nil {\n\t\t\t\tif n == 0 {\n\t\t\t\t\tcontinue\n\t\t\t\t}\n\t\t\t\terr = werr\n\t\t\t\tbreak\n\t\t\t}\n\t\t\trest = rest[n:]\n\t\t}\n\t\tif err != nil {\n\t\t\th.closeConnection(streamID, peerID, err)\n\t\t\treturn err\n\t\t}\n"},
+			}},
 			{Name: "rewrite: maxPlaintext as package constant, min() for the chunk end", Edits: []Edit{
 				{File: "internal/agent/agent.go", Old: "\tmaxPlaintext := protocol.MaxPayloadSize - crypto.EncryptionOverhead\n\n\t// Chunk data into max plaintext size pieces, encrypt each, and send\n\tfor offset := 0; offset < len(b); {\n\t\tend := offset + maxPlaintext\n\t\tif end > len(b) {\n\t\t\tend = len(b)\n\t\t}\n", New: "\tconst maxPlaintext = protocol.MaxPayloadSize - crypto.EncryptionOverhead\n\n\tfor offset := 0; len(b) > offset; {\n\t\tend := min(offset+maxPlaintext, len(b))\n"},
 			}},
@@ -184,6 +207,8 @@ func runC07(p *kit.Program, r *kit.Report) {
 	cx.ruleR1()
 	cx.ruleR2()
 	cx.ruleR3()
+	cx.ruleR4()
+	cx.ruleR5()
 	kit.DumpObs(r)
 }
 
